@@ -668,9 +668,21 @@ impl<C: Suite> Consume<Ctx<C>> for SignatureShare<C> {
         // trait level share verification (identifier aligned with the key share so that the id check passes)
         let mut raw = *self.as_raw_value();
         *raw.identifier_mut() = x.pk_shares[0].0.identifier();
-        let d = <C as BlsSignaturePop>::partial_verify(x.pk_shares[0].0, raw, &x.msg).is_ok();
-        let e = <C as BlsSignatureCore>::core_signature_share_verify(x.pk_shares[0].0, raw, &x.msg, <C as BlsSignaturePop>::SIG_DST).is_ok();
-        Some(a || b || c || d || e)
+        // every key share of the context: the honest signer of this share value is among them
+        let mut d = false;
+        for pks in &x.pk_shares {
+            let mut raw = raw;
+            *raw.identifier_mut() = pks.0.identifier();
+            d |= match self {
+                SignatureShare::Basic(_) => <C as BlsSignatureBasic>::partial_verify(pks.0, raw, &x.msg).is_ok(),
+                _ => <C as BlsSignaturePop>::partial_verify(pks.0, raw, &x.msg).is_ok(),
+            };
+            d |= <C as BlsSignatureCore>::core_signature_share_verify(pks.0, raw, &x.msg, <C as BlsSignatureBasic>::DST).is_ok();
+            d |= <C as BlsSignatureCore>::core_signature_share_verify(pks.0, raw, &x.msg, <C as BlsSignaturePop>::SIG_DST).is_ok();
+            // struct level against every key share as well
+            d |= pks.verify(self, &x.msg).is_ok();
+        }
+        Some(a || b || c || d)
     }
 }
 impl<C: Suite> Consume<Ctx<C>> for SignDecryptionShare<C> {
